@@ -362,4 +362,8 @@ def gen(stage):
     out += "def classes : List (String × Cls) := [%s]\n\n" % ", ".join("(%s, %s)" % (extract.lstr(c), l) for l, c in done)
     out += "def errors : List String := [%s]\n" % ", ".join(extract.lstr(e) for e in errors)
     out += "\nend ESR.Gen.NLL\n"
+    if errors:
+        # the translator cannot speak for some class: let extract.generate put the committed table back (C09 may then
+        # fall back on it + the interpreter-vs-real-class correspondence) instead of emitting a table without these programs
+        raise ExtractError("; ".join(errors)[:600])
     return out
